@@ -199,5 +199,7 @@ pub fn def() -> PropertyDef {
         witnesses: vec![Witness { finding: FINDING_REIFY, run: w_reify }],
         exhaustive: None,
         exhaustive_in_quick: false,
+        custom: None,
+        custom_replay: None,
     }
 }
